@@ -4,7 +4,7 @@ use std::panic::{catch_unwind, AssertUnwindSafe};
 
 use crate::ctx::Ctx;
 use crate::decls::{self, Decl, Fault};
-use crate::obs::panic_msg;
+use crate::ctx::panic_msg;
 
 pub const GEN_DIR: &str = "/verif/harness/c18gen";
 pub const OUT_DIR: &str = "/verif/target/c18";
